@@ -678,6 +678,10 @@ class Fxp():
             if set_inaccuracy and val.status['inaccuracy']:
                 self.status['inaccuracy'] = True
 
+            # a down-shifted raw value has a fractional part to be rounded: it can't be handled as integer
+            if self.n_frac < val.n_frac and vdtype is not None and vdtype != complex and np.issubdtype(vdtype, np.integer):
+                vdtype = float
+
             # force return raw value for better precision
             val = val.val * 2**(self.n_frac - val.n_frac)
             raw = True
